@@ -36,7 +36,7 @@ func TestVerifC16(t *testing.T) {
 		bg.Add(1)
 		go func(i int) {
 			defer bg.Done()
-			c16Session(out, vlib.NewRand(fmt.Sprintf("C16-session-%d", i)), i < nSess)
+			c16Session(out, vlib.NewRand(fmt.Sprintf("C16-session-%d", i)), i < nSess, i == 0)
 		}(i)
 		if i%4 == 3 {
 			bg.Wait() // at most four handshakes at a time
@@ -150,9 +150,9 @@ func c16Replay(t *testing.T, out *vlib.Out, path string) {
 		case strings.HasPrefix(line, "session "):
 			r := vlib.NewRand("C16-replay")
 			for i := 0; i < 6; i++ {
-				c16Session(out, r, true)
+				c16Session(out, r, true, i == 0)
 			}
-			c16Session(out, r, false)
+			c16Session(out, r, false, false)
 			fmt.Println("REPLAY (fresh draw of sessions):", line)
 		}
 	}
